@@ -49,6 +49,14 @@ def reset_concurrency_limiter(token: Any) -> None:
     _concurrency_limiter.reset(token)
 
 
+def _is_resumed_interrupt(node: HyperNode, state: GraphState) -> bool:
+    """True when an interrupt's response was supplied by the caller (resume path)."""
+    if not node.is_interrupt:
+        return False
+    data_outputs = node.data_outputs
+    return bool(data_outputs) and all(o in state.values for o in data_outputs) and node.name not in state.node_executions
+
+
 async def run_superstep_async(
     graph: Graph,
     state: GraphState,
@@ -101,9 +109,11 @@ async def run_superstep_async(
         input_versions = {param: state.get_version(param) for param in node.inputs}
         wait_for_versions = {name: state.get_version(name) for name in node.wait_for}
 
-        # Check cache before execution
+        # Check cache before execution. An interrupt that is being resumed takes
+        # the caller's response: it neither reads nor feeds the cache (a human's
+        # answer is not a computed result to replay in later runs).
         cache_key, cached_outputs = ("", None)
-        if cache is not None:
+        if cache is not None and not _is_resumed_interrupt(node, new_state):
             cache_key, cached_outputs = check_cache(node, inputs, cache)
 
         if cached_outputs is not None:
